@@ -80,12 +80,17 @@ pub fn present(t: &[char], style: u8, ci: usize, oneline: bool, flow: bool, topl
         }
     }
     let mut i = 0;
+    // how the previous character was written: an escaped blank is content, so a fold may follow it
+    let mut prev_escaped = false;
+    // the next character must be escaped (it is a blank that directly follows a fold)
+    let mut force_escape = false;
     while i < n {
         let c = t[i];
         let prev = if i > 0 { Some(t[i - 1]) } else { None };
+        let prev_ok = nonblank(prev) || (style == 2 && prev_escaped && prev.map_or(false, blank));
         // optional escaped line break before this character (double-quoted only). Never directly
         // before a fold: after an escaped break, following empty lines each denote a line feed.
-        if style == 2 && i > 0 && !oneline && c != '\n' && ch.pick(2) == 1 {
+        if style == 2 && i > 0 && !oneline && c != '\n' && !force_escape && ch.pick(2) == 1 {
             o.push('\\');
             o.push('\n');
             for _ in 0..ci + ch.pick(2) {
@@ -94,6 +99,7 @@ pub fn present(t: &[char], style: u8, ci: usize, oneline: bool, flow: bool, topl
             if blank(c) {
                 o.push('\\');
                 o.push(if c == ' ' { ' ' } else { 't' });
+                prev_escaped = true;
                 i += 1;
                 continue;
             }
@@ -104,7 +110,9 @@ pub fn present(t: &[char], style: u8, ci: usize, oneline: bool, flow: bool, topl
                 k += 1;
             }
             let next = t.get(i + k).copied();
-            let foldable = !oneline && nonblank(prev) && nonblank(next) && !(style == 0 && next == Some('#'));
+            // a blank after the fold is possible in double quotes if it is then written as an escape
+            let next_ok = nonblank(next) || (style == 2 && next.map_or(false, blank));
+            let foldable = !oneline && prev_ok && next_ok && !(style == 0 && next == Some('#'));
             let fold = if style == 2 {
                 foldable && ch.pick(2) == 1
             } else {
@@ -123,15 +131,19 @@ pub fn present(t: &[char], style: u8, ci: usize, oneline: bool, flow: bool, topl
                 for _ in 0..ci + ch.pick(2) {
                     o.push(' ');
                 }
+                force_escape = next.map_or(false, blank);
             } else {
                 for _ in 0..k {
                     o.push_str("\\n");
                 }
             }
+            prev_escaped = !fold;
             i += k;
             continue;
         }
-        if c == ' ' && !oneline && nonblank(prev) && nonblank(t.get(i + 1).copied()) && !(style == 0 && t[i + 1] == '#') && ch.pick(2) == 1 {
+        let next = t.get(i + 1).copied();
+        let next_ok = nonblank(next) || (style == 2 && next.map_or(false, blank));
+        if c == ' ' && !force_escape && !oneline && prev_ok && next_ok && !(style == 0 && next == Some('#')) && ch.pick(2) == 1 {
             // a single interior space rendered as a line fold
             if ch.pick(2) == 1 {
                 o.push(' ');
@@ -140,19 +152,35 @@ pub fn present(t: &[char], style: u8, ci: usize, oneline: bool, flow: bool, topl
             for _ in 0..ci + ch.pick(2) {
                 o.push(' ');
             }
+            force_escape = next.map_or(false, blank);
+            prev_escaped = false;
             i += 1;
             continue;
         }
+        prev_escaped = false;
         match style {
             2 => match c {
                 '"' => o.push_str("\\\""),
                 '\\' => o.push_str("\\\\"),
                 '\t' => {
-                    if ch.pick(2) == 1 {
+                    if force_escape || ch.pick(2) == 1 {
                         o.push_str("\\t");
+                        prev_escaped = true;
                     } else {
                         o.push('\t');
                     }
+                }
+                ' ' => {
+                    // literal, \x20, \u0020, \U00000020 or the named escape "\ "
+                    let k = if force_escape { 1 + ch.pick(4) } else { ch.pick(5) };
+                    match k {
+                        0 => o.push(' '),
+                        1 => o.push_str("\\x20"),
+                        2 => o.push_str("\\u0020"),
+                        3 => o.push_str("\\U00000020"),
+                        _ => o.push_str("\\ "),
+                    }
+                    prev_escaped = k != 0;
                 }
                 c => {
                     let k = ch.pick(4);
@@ -182,6 +210,7 @@ pub fn present(t: &[char], style: u8, ci: usize, oneline: bool, flow: bool, topl
             }
             _ => o.push(c),
         }
+        force_escape = false;
         i += 1;
     }
     Some(o)
